@@ -3,3 +3,4 @@ import FormakVerif.Model.Expr
 import FormakVerif.Model.PyModel
 import FormakVerif.Model.Runtime
 import FormakVerif.Model.Ekf
+import FormakVerif.Model.Validate
